@@ -586,3 +586,268 @@ var c12Modelled = map[string]string{
 	"SetHasElementFunc": "sethaselement", "SetUnionFunc": "setunion", "SetIntersectionFunc": "setintersection",
 	"SetSubtractFunc": "setsubtract", "SetSymmetricDifferenceFunc": "setsymmetricdifference",
 }
+
+// ---- near-equal twins ------------------------------------------------------------------------------
+//
+// Functions that RELATE two arguments or two members (contains, index/lookup/element keys, the set
+// algebra, coalesce, equal/notequal, distinct, …) decide by comparing values.  A comparison that is
+// too eager — one that takes two unknown placeholders "of the same type and refinements" for the same
+// value — only shows when BOTH sides carry an identical unknown at the SAME nested position while the
+// concrete values at that position differ and everything else is known and equal.  Independent random
+// weakening of independent random arguments practically never produces that, so it is generated on
+// purpose, for every function alike:
+//
+//   twin-argument   another argument becomes a copy of argument i that differs in exactly one nested leaf
+//   twin-of-member  another argument becomes a copy of a MEMBER of collection argument i, differing in one leaf
+//   twin-members    a member of collection argument i becomes such a copy of another member of it
+//
+// and in the weakened list that one leaf is replaced ON BOTH SIDES by the very same unknown value
+// (unrefined, or refined identically with refinements true of both originals: not-null, their common
+// prefix, numeric bounds around both).
+
+// c12OtherLeaf: a value of the same primitive type as l, different from it (for strings: sharing a prefix)
+func c12OtherLeaf(ctx *Ctx, l cty.Value) (cty.Value, bool) {
+	r := ctx.R
+	switch l.Type() {
+	case cty.String:
+		s := l.AsString()
+		cut := 0
+		for i := range s {
+			if i > 0 && r.Intn(2) == 0 {
+				cut = i
+			}
+		}
+		if r.Intn(3) == 0 {
+			cut = len(s)
+		}
+		for _, suf := range []string{"a", "bbb", "z", "-x", ""} {
+			if n := cty.StringVal(s[:cut] + suf); !n.RawEquals(l) {
+				return n, true
+			}
+		}
+	case cty.Number:
+		var o cty.Value
+		if p, _ := try(func() { o = l.Add(cty.NumberIntVal(int64(1 + r.Intn(3)))) }); !p && o.IsKnown() && !o.RawEquals(l) {
+			return o, true
+		}
+	case cty.Bool:
+		return l.Not(), true
+	}
+	return cty.NilVal, false
+}
+
+// c12CommonUnknown: an unknown value true of BOTH a and b (same primitive type, known, not null)
+func c12CommonUnknown(ctx *Ctx, a, b cty.Value) (cty.Value, string) {
+	r := ctx.R
+	t := a.Type()
+	u, kind := cty.UnknownVal(t), "unrefined"
+	if r.Intn(3) == 0 {
+		return u, kind
+	}
+	try(func() {
+		bld := cty.UnknownVal(t).Refine()
+		k := ""
+		if r.Intn(3) != 0 {
+			bld = bld.NotNull()
+			k = "notnull"
+		}
+		switch t {
+		case cty.String:
+			x, y := a.AsString(), b.AsString()
+			n := 0
+			for i := range x { // rune boundaries of x
+				if i <= len(y) && x[:i] == y[:i] {
+					n = i
+				}
+			}
+			if len(x) <= len(y) && y[:len(x)] == x {
+				n = len(x)
+			}
+			if n > 0 && r.Intn(4) != 0 {
+				if r.Intn(2) == 0 {
+					bld = bld.StringPrefixFull(x[:n])
+					k += "+prefix-full"
+				} else {
+					bld = bld.StringPrefix(x[:n])
+					k += "+prefix-safe"
+				}
+			}
+		case cty.Number:
+			lo, hi := a, b
+			if a.GreaterThan(b).True() {
+				lo, hi = b, a
+			}
+			if r.Intn(2) == 0 {
+				bld = bld.NumberRangeLowerBound(lo.Subtract(cty.NumberIntVal(int64(r.Intn(2)))), true)
+				k += "+lo-incl"
+			}
+			if r.Intn(2) == 0 {
+				bld = bld.NumberRangeUpperBound(hi.Add(cty.NumberIntVal(int64(r.Intn(2)))), true)
+				k += "+hi-incl"
+			}
+		}
+		if k != "" {
+			u, kind = bld.NewValue(), k
+		}
+	})
+	return u, kind
+}
+
+// c12Twin picks one nested leaf of v and returns: twin (v with that leaf changed), wv and wtwin (v and twin
+// with that leaf replaced by the same unknown, true of both leaves).
+func c12Twin(ctx *Ctx, v cty.Value, depth int, st *wkStats) (twin, wv, wtwin cty.Value, ok bool) {
+	if v.IsMarked() || !v.IsKnown() || v.IsNull() {
+		return
+	}
+	t := v.Type()
+	if t == cty.String || t == cty.Number || t == cty.Bool {
+		o, got := c12OtherLeaf(ctx, v)
+		if !got {
+			return
+		}
+		u, kind := c12CommonUnknown(ctx, v, o)
+		st.hit(kind)
+		st.hit(kind)
+		return o, u, u, true
+	}
+	if depth <= 0 {
+		return
+	}
+	keys, vals := c12Members(v)
+	if len(vals) == 0 {
+		return
+	}
+	start := ctx.R.Intn(len(vals))
+	for d := 0; d < len(vals); d++ {
+		k := (start + d) % len(vals)
+		mt, mw, mwt, got := c12Twin(ctx, vals[k], depth-1, st)
+		if !got {
+			continue
+		}
+		build := func(m cty.Value) (cty.Value, bool) {
+			out := make([]cty.Value, len(vals))
+			copy(out, vals)
+			out[k] = m
+			var ret cty.Value
+			if p, _ := try(func() { ret = c12Rebuild(v, keys, out) }); p {
+				return cty.NilVal, false
+			}
+			return ret, true
+		}
+		a, ok1 := build(mt)
+		b, ok2 := build(mw)
+		c, ok3 := build(mwt)
+		if ok1 && ok2 && ok3 {
+			return a, b, c, true
+		}
+		return
+	}
+	return
+}
+
+type c12TwinCase struct {
+	os, ws []cty.Value
+	st     *wkStats
+	scheme string
+}
+
+// c12Twins derives near-equal-twin cases from a concrete argument list (see the block comment).
+func c12Twins(ctx *Ctx, fn c11Fn, args []cty.Value, max int) []c12TwinCase {
+	r := ctx.R
+	ps := fn.f.Params()
+	vp := fn.f.VarParam()
+	paramTy := func(i int) cty.Type {
+		if i < len(ps) {
+			return ps[i].Type
+		}
+		if vp != nil {
+			return vp.Type
+		}
+		return cty.NilType
+	}
+	accepts := func(j int, t cty.Type) bool {
+		pt := paramTy(j)
+		return pt != cty.NilType && (pt == cty.DynamicPseudoType || len(t.TestConformance(pt)) == 0)
+	}
+	var out []c12TwinCase
+	clone := func() []cty.Value { c := make([]cty.Value, len(args)); copy(c, args); return c }
+	for i := range args {
+		// twin-argument
+		for j := range args {
+			if j == i || !accepts(j, args[i].Type()) || r.Intn(2) == 0 {
+				continue
+			}
+			st := &wkStats{}
+			if tw, wv, wtw, ok := c12Twin(ctx, args[i], 3, st); ok {
+				os, ws := clone(), clone()
+				os[j] = tw
+				ws[i], ws[j] = wv, wtw
+				out = append(out, c12TwinCase{os, ws, st, "twin-argument"})
+			}
+		}
+		keys, vals := c12Members(args[i])
+		if len(vals) == 0 {
+			continue
+		}
+		set := func(base cty.Value, repl map[int]cty.Value) (cty.Value, bool) {
+			o := make([]cty.Value, len(vals))
+			copy(o, vals)
+			for k, m := range repl {
+				o[k] = m
+			}
+			var ret cty.Value
+			if p, _ := try(func() { ret = c12Rebuild(base, keys, o) }); p {
+				return cty.NilVal, false
+			}
+			return ret, true
+		}
+		// twin-of-member
+		for j := range args {
+			k := r.Intn(len(vals))
+			if j == i || !accepts(j, vals[k].Type()) {
+				continue
+			}
+			st := &wkStats{}
+			if tw, wv, wtw, ok := c12Twin(ctx, vals[k], 2, st); ok {
+				if wi, ok2 := set(args[i], map[int]cty.Value{k: wv}); ok2 {
+					os, ws := clone(), clone()
+					os[j] = tw
+					ws[i], ws[j] = wi, wtw
+					out = append(out, c12TwinCase{os, ws, st, "twin-of-member"})
+				}
+			}
+		}
+		// twin-members (tuples and objects only when the two members have one type)
+		if len(vals) >= 2 {
+			k := r.Intn(len(vals))
+			k2 := (k + 1 + r.Intn(len(vals)-1)) % len(vals)
+			if vals[k].Type().Equals(vals[k2].Type()) {
+				st := &wkStats{}
+				if tw, wv, wtw, ok := c12Twin(ctx, vals[k], 2, st); ok {
+					oi, ok1 := set(args[i], map[int]cty.Value{k2: tw})
+					wi, ok2 := set(args[i], map[int]cty.Value{k: wv, k2: wtw})
+					if ok1 && ok2 {
+						os, ws := clone(), clone()
+						os[i], ws[i] = oi, wi
+						out = append(out, c12TwinCase{os, ws, st, "twin-members"})
+					}
+				}
+			}
+		}
+	}
+	if len(out) > max {
+		perm := r.Perm(len(out))[:max]
+		mark := map[int]bool{}
+		for _, k := range perm {
+			mark[k] = true
+		}
+		var sel []c12TwinCase
+		for i, c := range out {
+			if mark[i] {
+				sel = append(sel, c)
+			}
+		}
+		out = sel
+	}
+	return out
+}
